@@ -59,9 +59,16 @@ Definition hw_module (m : string) : bool :=
 
 (* documented domain of (method, parameter); None = outside the table claim (optimizers forward their
    parameters through method_kwargs at run time; half windows of non-morphological/smoothing methods) *)
+(* parameters of a documented OPTIONAL step: rubberband's diff_order is only used when the smoothing is
+   requested (lam given), dietrich's poly_order only when max_iter > 0 -- their guards sit under a
+   condition on that other parameter, which the table records as conditional (GOpaque) *)
+Definition optional_step (e : entry) : bool :=
+  (String.eqb (e_method e) "rubberband" && String.eqb (e_param e) "diff_order")
+  || (String.eqb (e_method e) "dietrich" && String.eqb (e_param e) "poly_order").
 Definition expected (e : entry) : option dom :=
   let p := e_param e in
   if String.eqb (e_module e) "optimizers" then None
+  else if optional_step e then None
   else if String.eqb p "lam" then Some DPos
   else if String.eqb p "p" then Some (if closed_p (e_method e) then DClosed01 else DOpen01)
   else if String.eqb p "quantile" then Some DOpen01
@@ -71,7 +78,7 @@ Definition expected (e : entry) : option dom :=
   else if String.eqb p "num_knots" then Some (DGe 2)
   else if String.eqb p "spline_degree" then Some (DGe 0)
   else if String.eqb p "half_window" then
-    (if hw_module (e_module e) then Some DHw else None)
+    (if hw_module (e_module e) || String.eqb (e_method e) "pspline_mpls" then Some DHw else None)
   else None.
 
 (* a single guard that rejects everything must_reject lists *)
